@@ -355,6 +355,7 @@ def single_primary(ck, m, rule='C14.e'):
         # demotion: inside a loop, under the true edge of `role == Primary`, a store whose role is the constant Secoundary
         loops = natural_loops(b)
         demote = False
+        partial = []
         for bi, t in b.calls():
             if callee_decl(t) == 'std::cmp::PartialEq::eq' and 'ClusterRole' in t['f'].get('dargs', ''):
                 if not any('Primary' in role_of_root(m, b, r) for a in t['args'] for r in origins(b, a)):
@@ -363,11 +364,38 @@ def single_primary(ck, m, rule='C14.e'):
                     for sbi, names in st:
                         if names == {'Secoundary'} and b.dominates(tt, sbi) and not b.dominates(ft, sbi) and any(sbi in body for h, body in loops):
                             demote = True
+                            # the demotion is total: the loop walks the member table itself (no filter / skip / take in between), and every
+                            # turn of the loop passes the store — a member left out (the node's own record has no link) stays Primary
+                            h_, body_ = min(((h, body) for h, body in loops if sbi in body), key=lambda x: len(x[1]))
+                            for nbi in body_:
+                                tn = b.term(nbi)
+                                if tn['k'] == 'call' and callee_decl(tn) == 'std::iter::Iterator::next':
+                                    it_ty = tn['f'].get('dargs', '')
+                                    sel = [w for w in ('Filter<', 'FilterMap<', 'Skip<', 'SkipWhile<', 'Take<', 'TakeWhile<', 'StepBy<') if w in it_ty]
+                                    if sel:
+                                        partial.append('the demotion loop iterates through %s' % ', '.join(x.rstrip('<') for x in sel))
+                            cut = {(sbi, nx) for nx in b.succ(sbi)}
+                            free = core.reachable_without(b, cut, start=h_) & body_
+                            latches = [x for x in body_ if h_ in b.succ(x) and x != sbi]
+                            nexts = [x for x in body_ if b.term(x)['k'] == 'call' and callee_decl(b.term(x)) == 'std::iter::Iterator::next']
+                            # a turn that took an element (passed the Some edge of next) and came back to the head without the store
+                            for nb_ in nexts:
+                                for (s3, tm3, els3, adt3) in core.enum_switches(b, nb_):
+                                    some = tm3.get('1', els3)
+                                    skipping = core.reachable_without(b, cut, start=some) & body_
+                                    if some in body_ and any(x in skipping for x in latches) and sbi != some:
+                                        partial.append('a turn of the demotion loop can skip the store (%s)' % b.loc(some))
         ck.ob(rule, short(b.id), 'primary-store-demotes-others', demote,
               'storing a Primary member first rewrites every existing member as Secondary' if demote else
               '%s can give a member the Primary role (%s) without demoting the member that held it: the member table then has two Primary '
               'entries and the forwarder sends every client write of a secondary to both' % (short(b.id), [sorted(x) for _, x in may_primary]),
               b.loc(may_primary[0][0]))
+        if demote:
+            ck.ob(rule, short(b.id), 'demotion-is-total', not partial,
+                  'the demotion visits every member and rewrites each of them' if not partial else
+                  '%s: a member the loop leaves out keeps the Primary role next to the new primary — the node\'s own record (it has no link) after it '
+                  'won and then lost an election: its cluster-state names two primaries and its forwarder sends to both' % '; '.join(sorted(set(partial))),
+                  b.loc(may_primary[0][0]))
     ck.floor(rule, n, 1, 'functions that can store a Primary member')
 
 
